@@ -59,10 +59,17 @@ Section Sys.
     cbn [m11 m12 m13 m21 m22 m23 m31 m32 m33 r6c]. apply mat_eq; rm_simpl; field. Qed.
 End Sys.
 
-Ltac pick n := match n with
-  | O => left; reflexivity
-  | S ?m => right; pick m end.
+(* one generator of a candidate holohedry leaves the cell invariant, from whatever equalities are in the context *)
+Ltac inv_gen := first
+  [ apply inv_I | apply inv_r2b; congruence | apply inv_r2c; congruence | apply inv_r2a; congruence
+  | apply inv_r4c; congruence | apply inv_r3d; congruence | apply inv_r2x; congruence | apply inv_r6c; congruence ].
+Ltac solve_with gens :=
+  exists gens; split;
+  [ vm_compute; tauto
+  | let R := fresh "R" in let HR := fresh "HR" in intros R HR; cbn [In] in HR;
+    repeat (destruct HR as [<-|HR]; [inv_gen|]); contradiction ].
 
+(* independent of the order in which the source writes the conjuncts and disjuncts of a rule *)
 Theorem accepted_cells_have_the_holohedry : forall sys r c,
   lookup_rule rule_table sys = Some r -> interp r c ->
   exists gens, In gens (holohedries sys) /\ forall R, In R gens -> invariant R c.
@@ -74,22 +81,12 @@ Proof.
       [apply String.eqb_eq in E; subst sys; injection HL as <- | ]
   end; try discriminate.
   all: cbn [interp term_val par_val] in HI.
-  - (* triclinic *) exists [I3]. split; [left; reflexivity|]. intros R [<-|[]]. apply inv_I.
-  - (* monoclinic *) destruct HI as [[H1 H2]|[[H1 H2]|[H1 H2]]].
-    + exists [r2b]. split; [left; reflexivity|]. intros R [<-|[]]. apply inv_r2b; congruence.
-    + exists [r2c]. split; [right; left; reflexivity|]. intros R [<-|[]]. apply inv_r2c; congruence.
-    + exists [r2a]. split; [right; right; left; reflexivity|]. intros R [<-|[]]. apply inv_r2a; congruence.
-  - (* orthorhombic *) destruct HI as [H1 [H2 H3]]. exists [r2a; r2b; r2c]. split; [left; reflexivity|].
-    intros R [<-|[<-|[<-|[]]]]; [apply inv_r2a | apply inv_r2b | apply inv_r2c]; congruence.
-  - (* tetragonal *) destruct HI as [H0 [H1 [H2 H3]]]. exists [r4c; r2a]. split; [left; reflexivity|].
-    intros R [<-|[<-|[]]]; [apply inv_r4c | apply inv_r2a]; congruence.
-  - (* trigonal *) destruct HI as [[[H0 H1] [H2 H3]]|[H0 [[H1 H2] H3]]].
-    + exists [r3d; r2x]. split; [left; reflexivity|]. intros R [<-|[<-|[]]]; [apply inv_r3d | apply inv_r2x]; congruence.
-    + exists [r6c; r2x]. split; [right; left; reflexivity|]. intros R [<-|[<-|[]]]; [apply inv_r6c | apply inv_r2x]; congruence.
-  - (* hexagonal *) destruct HI as [H0 [[H1 H2] H3]]. exists [r6c; r2x]. split; [left; reflexivity|].
-    intros R [<-|[<-|[]]]; [apply inv_r6c | apply inv_r2x]; congruence.
-  - (* cubic *) destruct HI as [[H0 H1] [H2 [H3 H4]]]. exists [r3d; r4c]. split; [left; reflexivity|].
-    intros R [<-|[<-|[]]]; [apply inv_r3d | apply inv_r4c]; congruence.
+  all: repeat match goal with
+       | H : _ /\ _ |- _ => destruct H
+       | H : _ \/ _ |- _ => destruct H
+       end.
+  all: first [ solve_with [I3] | solve_with [r2b] | solve_with [r2c] | solve_with [r2a] | solve_with [r2a; r2b; r2c]
+             | solve_with [r4c; r2a] | solve_with [r3d; r2x] | solve_with [r6c; r2x] | solve_with [r3d; r4c] ].
 Qed.
 
 (* the form the property is worded in: a cell that none of the system's holohedries leaves invariant is rejected *)
